@@ -234,3 +234,53 @@ def lb_agreement(rep, r, rule, cfg):
             else:
                 rep.fail(rule, where, 'deviation definition %s is added when a criterion uses the deviation variables %s' % (k, cfg),
                          got='absent although %s uses d[k]' % uses[0].loc, want=ref.core(), construct='deviation definition %s absent' % k)
+
+
+# ---- closed classification of the feasible region (C02.R3 / C03.R5) ------------------------------------------
+def allowed_families(pc, stab, lb):
+    out = {}
+    for k, v in spec.VALIDITY.items():
+        if v[2] == 'always' or v[2] == ('pc' if pc else 'nopc'):
+            out['validity ' + k] = ref_family(v)
+    if stab:
+        for k, v in spec.STABILITY.items():
+            out['stability ' + k] = ref_family(v)
+    if lb:
+        for k, v in spec.ABSDIFF.items():
+            out['deviation ' + k] = ref_family(v)
+    return out
+
+
+def closed_classification(rep, r, rule, cfg):
+    """Before the first solve the problem holds exactly the reference families of this configuration: each present
+    unconditionally, nothing else.  (Feasible region = valid [stable] matchings, extended by definable auxiliaries.)"""
+    first = r.first_solve()
+    where = r.repo.method('LP_Solver', 'run').where
+    if first is None:
+        rep.fail(rule, where, 'a solve is reached %s' % cfg, got='no solve', construct='no solve')
+        return
+    lb = any(c[0] in spec.LOAD_BALANCING for c in (r.criteria or []))
+    allowed = allowed_families(r.pc, r.stab, lb)
+    cores = {f.core(): k for k, f in allowed.items()}
+    pre = [e for e in r.of('addc') if e.order < first and not e.iters]
+    seen = set()
+    for e in pre:
+        if e.fam is None:
+            rep.inconclusive(rule, e.where, 'every constraint added before the first solve is classified %s' % cfg, got=e.err, loc=e.loc)
+            continue
+        k = cores.get(e.fam.core())
+        if k is None:
+            rep.fail(rule, e.where, 'every constraint added before the first solve is one of the reference families (validity%s%s) %s' % (
+                ', stability' if r.stab else '', ', deviation definitions' if lb else '', cfg), got=e.fam.core(), want='one of: ' + ', '.join(sorted(allowed)),
+                construct='unclassified constraint: ' + e.fam.core(), loc=e.loc)
+            continue
+        if e.sym_ifs:
+            rep.fail(rule, e.where, '%s is added unconditionally %s' % (k, cfg), got='only under ' + ' and '.join(show(c.cond if br else NOT(c.cond)) for c, br in e.sym_ifs),
+                     construct='conditional ' + k, loc=e.loc)
+            continue
+        seen.add(k)
+    for k in allowed:
+        if k in seen:
+            rep.ok(rule, where, '%s present, unconditional, before the first solve %s' % (k, cfg), got=allowed[k].core())
+        elif not any(o.status != 'discharged' and o.rule == rule and cfg in o.desc for o in rep.obs):
+            rep.fail(rule, where, '%s is present before the first solve %s' % (k, cfg), got='absent', want=allowed[k].core(), construct=k + ' absent')
